@@ -343,6 +343,8 @@ type DataReader struct {
 	blockID  uint32
 	offset   uint32
 	blockBuf []byte
+	// 最近一次读取失败的 chunk 在文件中的偏移量
+	failOffset int64
 }
 
 func (df *DataFile) NewReader() *DataReader {
@@ -456,6 +458,7 @@ func (reader *DataReader) next() ([]byte, *DataPos, error) {
 // 读取失败时将游标恢复到该条记录的起始位置, 使 Offset 指向最后一条完整记录的末尾
 // 文件在一条记录的中途结束 (已读取部分 chunk) 不属于正常结束
 func (reader *DataReader) fail(start *DataPos, cnt uint32, err error) error {
+	reader.failOffset = reader.Offset()
 	reader.blockID, reader.offset = start.BlockID, start.Offset
 	if err == io.EOF && cnt > 0 {
 		return io.ErrUnexpectedEOF
@@ -476,7 +479,8 @@ func isZero(b []byte) bool {
 // 即该 chunk 之后从未写入过任何数据: 此时校验失败的 chunk 是崩溃留下的残缺尾部 (映射文件缺失的部分表现为零), 而不是文件中部的损坏
 func (reader *DataReader) RestIsZero() bool {
 	fileSize := reader.dataFile.Size()
-	start := reader.Offset()
+	// 跨 block 的记录可能在第二个及之后的 chunk 处残缺, 从失败的 chunk 而不是记录起始位置开始检查
+	start := reader.failOffset
 	header := make([]byte, chunkHeaderSize)
 	if n, _ := reader.dataFile.ReadWriter.Read(header, start); n == chunkHeaderSize {
 		// 跳过该 chunk 声明的数据范围, 不超过所在 block 的末尾
